@@ -4,4 +4,5 @@ CONSTANTS
   MaxLen <- MC_MaxLen
   DTs <- MC_DTs
   Kinds <- MC_Kinds
+  Hows <- MC_Hows
 INVARIANT BogusFrozen
